@@ -70,8 +70,20 @@ let parse_bounce (s : string) : n list option =
 type case = { db : (n list * domstate) list option; dom : n list; lay : (n list * entry) list;
               vbfile : n list option; local : n list }
 
+(* c3: lists of <len:1><bytes> *)
+let parse_list (s : string) : n list list =
+  let rec go l acc = match l with
+    | [] -> List.rev acc
+    | k :: rest -> let x = take k rest in if List.mem 0 x then raise Bad; go (drop k rest) (List.map n_of_int x :: acc) in
+  go (ints s) []
+
 let parse_case fs =
   match fs with
+  | ["c3"; cdb; _; lay; bnc; _; "-"] ->
+      let lay = parse_layout lay in
+      let vbfile = parse_bounce bnc in
+      let db = parse_cdb cdb in
+      { db; dom = []; lay; vbfile; local = [] }
   | [("c1" | "c2") as op; cdb; dom; lay; bnc; loc; tail] ->
       if op = "c2" && tail <> "-" then raise Bad;
       let nonul s = not (List.mem 0 (ints s)) in
@@ -111,9 +123,27 @@ let model_rcpt c =
   string_of_int rc ^ " " ^ reply ^ " " ^ conf_word o (rc = 0 && u > 0 && u <> 5)
   ^ String.concat "" (List.map (function PDir n -> " d:" ^ hex_of_bytes n | PFile n -> " f:" ^ hex_of_bytes n) o.probes)
 
+(* c3: a sequence of calls on one struct userconf; the paths the harness puts into users/cdb *)
+let str s = List.map (fun c -> n_of_int (Char.code c)) (List.init (String.length s) (String.get s))
+let path_of = function DomTree -> str "outer/dom/" | DomMissing -> str "outer/missing/" | DomFile -> str "outer/afile/"
+let pathfs p = if p = str "outer/dom/" then DomTree else if p = str "outer/afile/" then DomFile else DomMissing
+let model_seq c doms locals =
+  if List.length doms <> List.length locals || doms = [] || List.length doms > 64 then "BADCASE" else begin
+    let fs = fs_of_layout c.lay and vb = vpopbounce_of c.vbfile in
+    let (rcs, s) = List.fold_left2 (fun (rcs, s) d l ->
+        let v = (match vget_dir c.db d with Inl rc -> VErr rc | Inr None -> VNone | Inr (Some st) -> VPath (path_of st)) in
+        let ((o, s'), _) = user_exists_ds s v pathfs fs vb l in
+        (string_of_int (int_of_z o.rc) :: rcs, s')) ([], ds_fresh) doms locals in
+    String.concat "," (List.rev rcs) ^ " " ^ string_of_int (int_of_nat (held s)) ^ " 0"
+  end
+
 let model fs =
   match (try Some (parse_case fs) with Bad | Failure _ -> None) with
   | None -> "BADCASE"
+  | Some c when List.hd fs = "c3" ->
+      (match (try Some (parse_list (List.nth fs 2), parse_list (List.nth fs 5)) with Bad | Failure _ -> None) with
+       | None -> "BADCASE"
+       | Some (ds, ls) -> model_seq c ds ls)
   | Some c when List.hd fs = "c2" -> model_rcpt c
   | Some c ->
       let o = user_exists c.db (fs_of_layout c.lay) (vpopbounce_of c.vbfile) c.dom c.local in
@@ -144,6 +174,15 @@ let spec_rcpt c obs =
 let spec fs obs =
   match (try Some (parse_case fs) with Bad | Failure _ -> None) with
   | None -> "pre"
+  | Some _ when List.hd fs = "c3" ->
+      (* no descriptor may be lost: at most two are referenced by the structure, none after userconf_free() *)
+      (match obs with
+       | [_; heldn; after] ->
+           (match int_of_string_opt heldn, int_of_string_opt after with
+            | Some h, Some 0 when h >= 0 && h <= 2 -> "ok"
+            | _ -> "bad")
+       | ["BADCASE"] -> "pre"
+       | _ -> "bad")
   | Some c when List.hd fs = "c2" -> spec_rcpt c obs
   | Some c ->
       match obs with
